@@ -136,15 +136,31 @@ func accumulator(c *mon.Ctx, cfg hcfg, N int, rng *gen.Rng) {
 					return fmt.Sprintf("n=%d i=%d tamper=%s index=%d proofLen=%d accepted", n, i, kind, index, len(set))
 				})
 			}
-			// flip one byte of leaf / root / each sibling
+			// flip one byte of leaf / root / each sibling (for the field-based hashes the flipped byte is a low-order
+			// one, so the element stays a canonical field element: non-canonical bytes are probed separately below)
 			for e := 0; e < len(ps); e++ {
 				s := cloneSet(ps)
-				s[e][(i+e)%len(s[e])] ^= 0x01
+				pos := (i + e) % len(s[e])
+				if cfg.label != "sha256" {
+					pos = len(s[e]) - 1 - (i+e)%8
+				}
+				s[e][pos] ^= 0x01
 				kind := "sibling-flip"
 				if e == 0 {
 					kind = "leaf-flip"
 				}
 				rej(kind, wantRoot, s, uint64(i))
+			}
+			if cfg.label != "sha256" && n <= 6 && len(ps) > 1 {
+				// a sibling that is not a canonical field element: the verifier must reject it, not panic
+				s := cloneSet(ps)
+				for k := range s[1] {
+					s[1][k] = 0xff
+				}
+				var ok bool
+				if !c.Guard(L+"/Verify/panic/non-canonical-sibling", func() string { return fmt.Sprintf("n=%d i=%d sibling 1 = ff..ff", n, i) }, func() { ok = merkletree.VerifyProof(vh, wantRoot, s, uint64(i), uint64(n)) }) {
+					c.Check("VerifyProof/tamper", L+"/Verify/accepted-tampered/non-canonical-sibling", !ok, func() string { return fmt.Sprintf("n=%d i=%d", n, i) })
+				}
 			}
 			r2 := append([]byte(nil), wantRoot...)
 			r2[i%len(r2)] ^= 0x80
